@@ -85,6 +85,7 @@ func main() {
 	flag.BoolVar(&cfg.Reinit, "reinit", false, "re-run package initialisers for every path")
 	flag.BoolVar(&cfg.Domain, "domain", false, "decide single-byte-variable branches by exact domain enumeration before asking the solver")
 	flag.BoolVar(&cfg.MapPerm, "mapperm", false, "explore map iteration orders")
+	flag.IntVar(&cfg.MapDev, "mapdev", 0, "bound: at most this many map ranges per path iterate in a permuted order (0 = unlimited)")
 	flag.StringVar(&timeLimit, "timelimit", "", "wall-clock limit (e.g. 10m)")
 	var initAllow string
 	flag.StringVar(&initAllow, "initallow", "", "comma-separated package paths whose initialisers are run in addition to the built-in list")
